@@ -16,6 +16,8 @@ def tasks(tier, seed):
     t.append(("contracts.tree_predict", "task", (tier, seed), to, "Tree.predict"))
     from contracts import external_deps
     t += external_deps.softmax_tasks(tier, seed)
+    # B: the same contracts replayed on the real code at a ladder of larger shapes (stand-in for the missing induction over sizes)
+    t.append(("contracts.size_ladder", "task", ("infer", tier, seed), 1500, "size ladder: forward passes"))
     return t
 
 
